@@ -896,6 +896,160 @@ Proof.
 Qed.
 
 (* ------------------------------------------------------------------ *)
+(* priority inheritance (check_and_boost) rewrites priorities only       *)
+
+Record prio_only (s s' : st) : Prop := mkPO {
+  po_res : resources s' = resources s;
+  po_act : active s' = active s;
+  po_edges : edges s' = edges s;
+  po_now : now s' = now s;
+  po_ctx : forall o, match get_ctx s o with
+                     | Some c => exists c', get_ctx s' o = Some c' /\ c_acq c' = c_acq c
+                     | None => get_ctx s' o = None
+                     end }.
+
+Lemma prio_only_refl s : prio_only s s.
+Proof. constructor; auto. intros o. destruct (get_ctx s o) as [c|]; eauto. Qed.
+
+Lemma prio_only_trans s1 s2 s3 : prio_only s1 s2 -> prio_only s2 s3 -> prio_only s1 s3.
+Proof.
+  intros [A1 B1 C1 D1 E1] [A2 B2 C2 D2 E2]. constructor; try congruence.
+  intros o. specialize (E1 o). specialize (E2 o).
+  destruct (get_ctx s1 o) as [c|].
+  - destruct E1 as (c' & H1 & H2). rewrite H1 in E2. destruct E2 as (c'' & H3 & H4).
+    exists c''. split; auto. congruence.
+  - now rewrite E1 in E2.
+Qed.
+
+Lemma put_boost_po s o c p : get_ctx s o = Some c -> prio_only s (put_ctx s o (c_boost c p)).
+Proof.
+  intros Hc. constructor; auto.
+  intros o'. rewrite get_ctx_put_ctx. destruct (Z.eqb o o') eqn:E.
+  - assert (o = o') by lia. subst. rewrite Hc. eauto.
+  - destruct (get_ctx s o') as [c'|]; eauto.
+Qed.
+
+Lemma live_ctx_Some s o c : live_ctx s o = Some c -> get_ctx s o = Some c.
+Proof. unfold live_ctx. destruct (is_active s o); congruence. Qed.
+
+Lemma pi_chain_po ch : forall s maxp, prio_only s (fst (pi_chain s maxp ch)).
+Proof.
+  induction ch as [|o ch IH]; intros s maxp; cbn [pi_chain]; [apply prio_only_refl|].
+  destruct (live_ctx s o) as [c|] eqn:L; auto.
+  destruct (Z.ltb (c_prio c) maxp); auto.
+  specialize (IH (put_ctx s o (c_boost c maxp)) maxp).
+  destruct (pi_chain (put_ctx s o (c_boost c maxp)) maxp ch) as [s2 nb]. cbn [fst] in *.
+  eapply prio_only_trans; [|exact IH]. apply put_boost_po. now apply live_ctx_Some.
+Qed.
+
+Lemma pi_waiters_po g keys : forall s s' nb, pi_waiters g keys s = Some (s', nb) -> prio_only s s'.
+Proof.
+  induction keys as [|k keys IH]; intros s s' nb; cbn [pi_waiters].
+  - intros H. inversion H; subst. apply prio_only_refl.
+  - destruct (live_ctx s k) as [c|]; [|apply IH].
+    destruct (pi_tail g k) as [ch|]; [|discriminate].
+    pose proof (pi_chain_po ch s (c_prio c)) as P.
+    destruct (pi_chain s (c_prio c) ch) as [s1 nb1]. cbn [fst] in P.
+    destruct (pi_waiters g keys s1) as [[s2 nb2]|] eqn:R; [|discriminate].
+    intros H. inversion H; subst. eapply prio_only_trans; [exact P|]. eapply IH; eauto.
+Qed.
+
+Lemma pi_boost_po s s' nb : pi_boost s = Some (s', nb) -> prio_only s s'.
+Proof. apply pi_waiters_po. Qed.
+
+Lemma prio_only_lock s s' r : prio_only s s' -> get_lock s' r = get_lock s r.
+Proof. intros P. unfold get_lock. now rewrite (po_res _ _ P). Qed.
+
+Lemma prio_only_owner s s' r : prio_only s s' -> owner s' r = owner s r.
+Proof. intros P. rewrite !owner_def. now rewrite (prio_only_lock _ _ r P). Qed.
+
+Lemma prio_only_wf s s' : prio_only s s' -> WF s -> WF s'.
+Proof.
+  intros P W. constructor.
+  - intros r l. rewrite (prio_only_lock _ _ r P). apply (wf_lock s W).
+  - intros r l o. rewrite (prio_only_lock _ _ r P), (po_act _ _ P). intros H1 H2.
+    destruct (wf_own s W r l o H1 H2) as (Ha & c & Hc & Hin). split; auto.
+    pose proof (po_ctx _ _ P o) as X. rewrite Hc in X. destruct X as (c' & X1 & X2).
+    exists c'. split; auto. congruence.
+  - intros o. rewrite (po_act _ _ P). intros H. destruct (wf_act s W o H) as (c & Hc).
+    pose proof (po_ctx _ _ P o) as X. rewrite Hc in X. destruct X as (c' & X1 & _). eauto.
+Qed.
+
+(* get_blocking_chain terminates within its fuel: the visited nodes are distinct
+   keys of the graph *)
+Lemma pi_walk_fuel g : forall fuel cur rest,
+  NoDup (cur :: rest) -> incl rest (map fst g) -> (length g < fuel + length rest)%nat ->
+  pi_walk fuel g cur (cur :: rest) <> None.
+Proof.
+  induction fuel as [|f IH]; intros cur rest ND I L.
+  - exfalso. inversion ND; subst. pose proof (NoDup_incl_length H2 I) as X.
+    rewrite map_length in X. simpl in L. lia.
+  - cbn [pi_walk]. destruct (succs g cur) as [|[b r0] t] eqn:S; [discriminate|].
+    destruct (memz b (cur :: rest)) eqn:M; [discriminate|].
+    apply memz_false in M.
+    assert (K : In cur (map fst g)).
+    { unfold succs in S. destruct (aget g cur) eqn:A; [|discriminate]. eapply aget_Some_in; eauto. }
+    assert (X : pi_walk f g b (b :: cur :: rest) <> None).
+    { apply IH.
+      - constructor; auto.
+      - intros x [<-|Hx]; auto.
+      - simpl. lia. }
+    destruct (pi_walk f g b (b :: cur :: rest)); [discriminate | congruence].
+Qed.
+
+Lemma pi_tail_fuel g a : pi_tail g a <> None.
+Proof.
+  unfold pi_tail. apply pi_walk_fuel.
+  - constructor; [intros [] | constructor].
+  - intros x [].
+  - simpl. lia.
+Qed.
+
+Lemma pi_waiters_fuel g : forall keys s, pi_waiters g keys s <> None.
+Proof.
+  induction keys as [|k keys IH]; intros s; cbn [pi_waiters]; [discriminate|].
+  destruct (live_ctx s k) as [c|]; auto.
+  destruct (pi_tail g k) as [ch|] eqn:B; [|now apply pi_tail_fuel in B].
+  destruct (pi_chain s (c_prio c) ch) as [s1 nb1].
+  specialize (IH s1). destruct (pi_waiters g keys s1) as [[s2 nb2]|]; [discriminate | congruence].
+Qed.
+
+Lemma boost_fuel_proof s : pi_boost s <> None.
+Proof. apply pi_waiters_fuel. Qed.
+
+(* every new boost raises the priority of an ACTIVE operation *)
+Lemma pi_chain_boosted ch : forall s maxp o p,
+  In (o, p) (snd (pi_chain s maxp ch)) -> In o (active s).
+Proof.
+  induction ch as [|x ch IH]; intros s maxp o p; cbn [pi_chain]; [intros []|].
+  destruct (live_ctx s x) as [c|] eqn:L; [|apply IH].
+  destruct (Z.ltb (c_prio c) maxp); [|apply IH].
+  specialize (IH (put_ctx s x (c_boost c maxp)) maxp o p).
+  destruct (pi_chain (put_ctx s x (c_boost c maxp)) maxp ch) as [s2 nb]. cbn [snd] in *.
+  intros [H|H]; [|now apply IH].
+  inversion H; subst. unfold live_ctx in L. destruct (is_active s o) eqn:A; [|discriminate].
+  now apply memz_In.
+Qed.
+
+(* ResourceLock.pop_next_waiter and anything else that leaves owner and hold_count alone *)
+Lemma wf_put_lock_core s r l l' :
+  WF s -> get_lock s r = Some l -> l_owner l' = l_owner l -> l_hold l' = l_hold l ->
+  WF (put_lock s r l').
+Proof.
+  intros W Hl Eo Eh. constructor.
+  - intros r0 l0. rewrite get_lock_put_lock. destruct (Z.eqb r r0) eqn:E.
+    + intros X. inversion X; subst. pose proof (wf_lock s W r l Hl) as K.
+      unfold lock_ok in *. now rewrite Eo, Eh.
+    + apply (wf_lock s W).
+  - intros r0 l0 o. rewrite get_lock_put_lock, get_ctx_put_lock, active_put_lock.
+    destruct (Z.eqb r r0) eqn:E.
+    + intros X Ho. inversion X; subst. assert (r = r0) by lia. subst.
+      apply (wf_own s W r0 l o Hl). congruence.
+    + apply (wf_own s W).
+  - intros o. rewrite active_put_lock, get_ctx_put_lock. apply (wf_act s W).
+Qed.
+
+(* ------------------------------------------------------------------ *)
 (* the step API                                                         *)
 
 Lemma is_active_In s o : is_active s o = true <-> In o (active s).
@@ -920,6 +1074,14 @@ Proof.
   - pose proof (wd_execute_spec w s W) as X. destruct (wd_execute current w s) as [s' evs]. simpl. apply X.
   - apply shutdown_spec; auto.
   - now apply wf_set_now.
+  - destruct (pi_boost s) as [[s1 nb]|] eqn:B; auto.
+    assert (W1 : WF s1) by (eapply prio_only_wf; [eapply pi_boost_po; eauto | auto]).
+    pose proof (wd_execute_spec w s1 W1) as X. destruct (wd_execute current w s1) as [s' evs]. simpl. apply X.
+  - destruct (is_active s o); simpl; auto.
+    destruct (advance s o CpDefault) as [s' b] eqn:A. simpl. eapply advance_wf; eauto.
+  - destruct (get_lock s r) as [l|] eqn:Hl; simpl; auto.
+    destruct (l_wait l) as [|x t]; simpl; auto.
+    eapply wf_put_lock_core; eauto.
 Qed.
 
 Lemma run_work_wf w acts : forall s, WF s -> WF (fst (run_work current w s acts)).
@@ -1208,6 +1370,20 @@ Lemma abort_fold_wfbut x (L : list Z) : forall s,
   WFbut x s -> WFbut x (fold_left (abort_if_active current) L s).
 Proof. induction L as [|o L IH]; intros s W; simpl; auto. apply IH. now apply abort_if_active_wfbut. Qed.
 
+Lemma advance_as_at s o out : advance s o out = advance_at (phase_of s o) s o out.
+Proof.
+  unfold advance, advance_at, phase_of. destruct (get_ctx s o) as [c|]; reflexivity.
+Qed.
+
+Lemma prio_only_plus x s s' : prio_only s s' -> prio_only (act_plus x s) (act_plus x s').
+Proof.
+  intros [A B C D E]. constructor; auto.
+  unfold act_plus. rewrite !active_set_active. now rewrite B.
+Qed.
+
+Lemma prio_only_wfbut x s s' : prio_only s s' -> WFbut x s -> WFbut x s'.
+Proof. intros P W. unfold WFbut in *. eapply prio_only_wf; [apply prio_only_plus; eauto | auto]. Qed.
+
 Lemma fstep_wfbut x w s a : WFbut x s -> WFbut x (fst (fstep current w s a)).
 Proof.
   intros W. destruct a; cbn [fstep].
@@ -1224,6 +1400,17 @@ Proof.
   - unfold wd_execute. rewrite fold_abort_events. simpl. now apply abort_fold_wfbut.
   - unfold shutdown. now apply abort_fold_wfbut.
   - exact (wf_set_now (act_plus x s) _ W).
+  - destruct (pi_boost s) as [[s1 nb]|] eqn:B; auto.
+    assert (W1 : WFbut x s1) by (eapply prio_only_wfbut; [eapply pi_boost_po; eauto | auto]).
+    unfold wd_execute. rewrite fold_abort_events. simpl. now apply abort_fold_wfbut.
+  - destruct (is_active s o); simpl; auto.
+    rewrite advance_as_at. pose proof (advance_at_wfbut (phase_of s o) x s o CpDefault W) as X.
+    destruct (advance_at (phase_of s o) s o CpDefault) as [s' b]. exact X.
+  - destruct (get_lock s r) as [l|] eqn:Hl; simpl; auto.
+    destruct (l_wait l) as [|y t]; simpl; auto.
+    unfold WFbut in *.
+    change (WF (put_lock (act_plus x s) r (mkLock (l_owner l) (l_prio l) (l_hold l) (l_preempt l) t))).
+    eapply wf_put_lock_core; eauto.
 Qed.
 
 Lemma run_work_wfbut x w acts : forall s, WFbut x s -> WFbut x (fst (run_work current w s acts)).
@@ -1360,6 +1547,12 @@ Proof.
   - unfold wd_execute. rewrite fold_abort_events. simpl. apply abort_fold_keeps.
   - unfold shutdown. apply abort_fold_keeps.
   - split; [apply incl_refl|auto].
+  - destruct (pi_boost s) as [[s1 nb]|] eqn:B; simpl; [|apply keeps_refl].
+    pose proof (pi_boost_po _ _ _ B) as P.
+    apply keeps_trans with (s2 := s1).
+    + split; [rewrite (po_act _ _ P); apply incl_refl|].
+      intros _ r H. now rewrite (prio_only_owner _ _ r P).
+    + unfold wd_execute. rewrite fold_abort_events. simpl. apply abort_fold_keeps.
 Qed.
 
 Lemma run_work_cons fl' w s a acts :
@@ -1988,4 +2181,51 @@ Proof.
       | X : In _ ?wl, F : Forall is_inner ?wl |- _ => destruct (inner_not_in _ _ F X)
       | X : _ = EvWorkRet |- _ => discriminate X
       end.
+Qed.
+
+(* ------------------------------------------------------------------ *)
+(* run_maintenance = check_and_boost; watchdog.execute                  *)
+
+Lemma pi_waiters_boosted g keys : forall s s' nb o p,
+  pi_waiters g keys s = Some (s', nb) -> In (o, p) nb -> In o (active s).
+Proof.
+  induction keys as [|k keys IH]; intros s s' nb o p; cbn [pi_waiters].
+  - intros H. inversion H; subst. intros [].
+  - destruct (live_ctx s k) as [c|]; [|apply IH].
+    destruct (pi_tail g k) as [ch|]; [|discriminate].
+    pose proof (pi_chain_po ch s (c_prio c)) as P.
+    pose proof (pi_chain_boosted ch s (c_prio c) o p) as Q.
+    destruct (pi_chain s (c_prio c) ch) as [s1 nb1]. cbn [fst snd] in *.
+    destruct (pi_waiters g keys s1) as [[s2 nb2]|] eqn:R; [|discriminate].
+    intros H. inversion H; subst. intros X. apply in_app_or in X as [X|X]; auto.
+    rewrite <- (po_act _ _ P). eapply IH; eauto.
+Qed.
+
+(* the priority-inheritance half touches no lock, ends nobody and boosts active
+   operations only; the watchdog half is Watchdog.execute on that state *)
+Lemma maintenance_no_leak_proof w s s1 nb :
+  WF s -> pi_boost s = Some (s1, nb) ->
+  (forall r, get_lock s1 r = get_lock s r) /\ active s1 = active s /\ edges s1 = edges s /\
+  (forall o p, In (o, p) nb -> In o (active s)) /\
+  let s' := fst (wd_execute current w s1) in
+  let evs := snd (wd_execute current w s1) in
+  WF s' /\ forall v why, In (v, why) evs -> owns_nothing s' v /\ ~ In v (active s').
+Proof.
+  intros W B. pose proof (pi_boost_po _ _ _ B) as P.
+  split. { intros r. now apply prio_only_lock. }
+  split. { apply (po_act _ _ P). }
+  split. { apply (po_edges _ _ P). }
+  split. { intros o p. eapply pi_waiters_boosted; eauto. }
+  apply watchdog_no_leak_proof. eapply prio_only_wf; eauto.
+Qed.
+
+Lemma maintenance_own_locks_proof w s s1 nb :
+  WF s -> pi_boost s = Some (s1, nb) ->
+  forall r, (forall v why, In (v, why) (snd (wd_execute current w s1)) -> owner s r <> Some v) ->
+  get_lock (fst (wd_execute current w s1)) r = get_lock s r.
+Proof.
+  intros W B r N. pose proof (pi_boost_po _ _ _ B) as P.
+  rewrite <- (prio_only_lock _ _ r P). apply watchdog_own_locks_proof.
+  - eapply prio_only_wf; eauto.
+  - intros v why H. rewrite (prio_only_owner _ _ r P). eauto.
 Qed.
